@@ -816,7 +816,9 @@ class AbsExpression(FunctionExpression):
         return "abs"
 
     def operate(self, value: NumberType) -> NumberType:
-        return np.absolute(value)
+        # np.absolute hands back a numpy scalar: an int64 wraps silently in later
+        # arithmetic (and abs(-2^63) stays negative). Python numbers stay exact.
+        return abs(value)
 
 
 class SgnExpression(FunctionExpression):
